@@ -63,6 +63,17 @@ def _is_download(e, f):
     return _is_call(e, 'download_file') and [norm(a) for a in e.args] == [p[0], p[1]]
 
 
+def site_func(src, site=None):
+    """the function with its private module-level helpers in place (a helper that reads the local file, say); the local closures
+    that end in the full download keep their identity"""
+    from .. import normalize
+    from ..core import Func
+    f = src.func(site or SITE)
+    node, _inl = normalize.inline_helpers(f, depth=2, skip=tuple(_closure_returning_download(f)) if (site or SITE) == SITE else ())
+    set_parents(node)
+    return Func(f.module, node, f.qual, f.cls)
+
+
 def r1_verify_before_replace(rep, src):
     f = src.func(SITE)
     rep.saw_func(f)
@@ -327,7 +338,7 @@ def r2_single_writer(rep, src):
         raise AnalysisError('positive control failed: replace_file should contain the open-for-write and the rename')
     rep.ok('C19.R2', MODN, 'only replace_file writes the local file', '%d writer call sites, all inside replace_file' % control)
     # update_file passes `local` only to open(read), download_file, replace_file
-    f = src.func(SITE)
+    f = site_func(src)
     local = f.params()[1]
     bad = []
     for c in calls_in(f.node):
@@ -430,7 +441,7 @@ def r3_replace_protocol(rep, src):
 
 
 def r4_fallbacks(rep, src, g):
-    f = src.func(SITE)
+    f = site_func(src)
     closures = _closure_returning_download(f)
     roles = getattr(g, 'roles', None) or {}
     content, remote, table = roles.get('content') or 'lines', roles.get('remote') or 'remote_hash', roles.get('table') or 'patch_hashes'
@@ -496,9 +507,33 @@ def r4_fallbacks(rep, src, g):
             return {'BaseException'}
         return {norm(x).split('.')[-1] for x in (h.type.elts if isinstance(h.type, ast.Tuple) else [h.type])}
 
-    def falls_back(h):
-        return any(isinstance(s, ast.Return) and s.value is not None and (_is_download(s.value, f) or (isinstance(s.value, ast.Call) and norm(s.value.func) in closures))
-                   for s in h.body)
+    def falls_back(h, t=None):
+        if any(isinstance(s, ast.Return) and s.value is not None and (_is_download(s.value, f) or (isinstance(s.value, ast.Call) and norm(s.value.func) in closures))
+               for s in h.body):
+            return True
+        # the handler only marks the failure (`lines = None`) and the statements after the try turn the mark into the full download:
+        # every path from the handler reaches `return download_file(...)` before it does anything else than print
+        if t is None or t not in f.node.body:
+            return False
+        from .. import paths as P_
+        rest = f.node.body[f.node.body.index(t) + 1:]
+        try:
+            ps = P_.Enumerator(P_.Folder(), max_paths=200).run(list(h.body) + rest[:3], [P_.Path()])
+        except AnalysisError:
+            return False
+        for p_ in ps:
+            if p_.outcome is None or p_.outcome[0] != 'return' or p_.outcome[1] is None:
+                return False
+            v = p_.outcome[1]
+            if not (_is_download(v, f) or (isinstance(v, ast.Call) and norm(v.func) in closures)):
+                return False
+            for e_ in p_.events:
+                if e_[0] == 'effect' and isinstance(e_[1], ast.Expr) and isinstance(e_[1].value, ast.Call) and norm(e_[1].value.func) == 'print':
+                    continue
+                if e_[0] in ('assign',):
+                    continue
+                return False
+        return bool(ps)
     why = {'ParseError': 'parsed', 'IOError': 'fetched', 'UnicodeDecodeError': 'decoded (bytes that are not text in the expected encoding: a compressed file, an error page)'}
     # the index reader decodes the bytes it reads (a `.decode(...)` without an error policy, or a text-mode stream): that raises
     # UnicodeDecodeError, a ValueError, for an index that is not text
@@ -531,7 +566,7 @@ def r4_fallbacks(rep, src, g):
                 needl['UnicodeDecodeError'] = False
         for h in t.handlers:
             for k in needl:
-                if handler_names(h) & HIER[k] and falls_back(h):
+                if handler_names(h) & HIER[k] and falls_back(h, t):
                     needl[k] = True
     for k, v in needl.items():
         what = 'missing local copy → full download' if k == 'IOError' else 'local copy that is not text (foreign file) → full download'
@@ -798,8 +833,8 @@ def r9_faithful_io(rep, src):
     want_enc = next(iter(enc_of_hash))
     n = 0
     for site, role in sites:
-        f = src.func(site)
-        rep.saw_func(f)
+        rep.saw_func(src.func(site))
+        f = site_func(src, site)
         params = f.params()
         defaults = {}
         a = f.node.args
